@@ -465,23 +465,33 @@ def drainEvents : Nat → List Key → M (List Key)
 def headStatusOf (ix : IState) (k : Key) : Option HeadStatus :=
   ((findInst ix k.1).bind (·.findHead k.2)).map (·.status)
 
+/-- a pending head object that left `heads` through `heads.clear()` keeps its Python status; the model can only
+    follow when that cannot matter (its flow is not listening) -/
+def pendingDetachedBad (ix : IState) (cleared : List Key) (actionable : List Key) : Bool :=
+  actionable.any fun k =>
+    (headStatusOf ix k).isNone &&
+      (match findInst ix k.1 with
+       | some i => i.status.listening && cleared.contains k
+       | none => true)
+
 /-- `while heads_are_merging:` -/
 def mergeLoop : Nat → List Key → M (List Key)
   | 0, _ => throw .outOfFuel
   | fuel + 1, actionable => do
     let actionable ← drainEvents fuel actionable
-    let ix ← getIx
-    -- a head object that left `heads` keeps its Python status; the model can only follow when that does not matter
-    for k in actionable do
-      if (headStatusOf ix k).isNone then
-        match findInst ix k.1 with
-        | some i => if i.status.listening && (← getRest).cleared.contains k then unsupported "a cleared head of the restarted main flow is pending"
-        | none => unsupported "pending head of a removed flow"
-    let merging := actionable.filter fun k => headStatusOf ix k = some .merging
-    let active := actionable.filter fun k => headStatusOf ix k = some .active
-    let more ← advanceHeadFront fuel merging
-    let actionable := active ++ more
-    if merging.isEmpty then return actionable else mergeLoop fuel actionable
+    let s ← get
+    let ix := s.ixs.ix
+    if pendingDetachedBad ix s.r.cleared actionable then
+      unsupported "a cleared head of the restarted main flow (or of a removed flow) is pending"
+    else
+      let merging := actionable.filter fun k => headStatusOf ix k = some .merging
+      let active := actionable.filter fun k => headStatusOf ix k = some .active
+      if merging.isEmpty then
+        -- `_advance_head_front(state, [])` changes nothing and returns `[]`
+        return active
+      else
+        let more ← advanceHeadFront fuel merging
+        mergeLoop fuel (active ++ more)
 
 /-- `while heads_are_advancing:` -/
 def mainLoop : Nat → List Key → M Unit
@@ -493,10 +503,17 @@ def mainLoop : Nat → List Key → M Unit
       match findInst ix k.1 with
       | some i => i.status.isActive && headStatusOf ix k = some .active
       | none => false
-    let advancing ← resolveActionConflicts fuel actionable
-    if advancing.isEmpty then return
-    let actionable ← advanceHeadFront fuel advancing
-    mainLoop fuel actionable
+    if actionable.isEmpty then
+      -- `_resolve_action_conflicts(state, [])` and `_advance_head_front(state, [])` change nothing: the loop ends
+      return
+    else
+      let advancing ← resolveActionConflicts fuel actionable
+      if advancing.isEmpty then
+        -- never the case for a non-empty list (the picked head of every group advances); the model does not guess
+        unsupported "no advancing head for a non-empty list of actionable heads"
+      else
+        let actionable ← advanceHeadFront fuel advancing
+        mainLoop fuel actionable
 
 /-- `run_to_completion(state, external_event)` -/
 def runToCompletion (fuel : Nat) (ev : Match.Ev) : M Unit := do
